@@ -1033,6 +1033,7 @@ func (c *extractCtx) decodeStmts(stmts []ast.Stmt) ([]LItem, error) {
 	var countVar types.Object // n := b.Read16()
 	var countPos token.Pos
 	resetSeen := map[string]bool{}
+	accum := map[types.Object]string{} // local accumulators of list fields that still await their write-back
 	var payloadCountVar types.Object // count := b.Read32()
 	for i := 0; i < len(stmts); i++ {
 		s := stmts[i]
@@ -1205,6 +1206,36 @@ func (c *extractCtx) decodeStmts(stmts []ast.Stmt) ([]LItem, error) {
 					continue
 				}
 			}
+			// L := F[:0] ... F = L: the elements are accumulated in a local that starts as the
+			// emptied storage of the field and is stored in the field afterwards
+			if sl, ok := rhs.(*ast.SliceExpr); ok && st.Tok == token.DEFINE {
+				id, isId := st.Lhs[0].(*ast.Ident)
+				rp, _, rok := c.fieldPath(sl.X)
+				hi, hok := constInt(c.x.info, sl.High)
+				if isId && rok && sl.Low == nil && sl.High != nil && hok && hi == 0 && !sl.Slice3 {
+					obj := c.x.info.Defs[id]
+					if c.locals == nil {
+						c.locals = map[types.Object]string{}
+					}
+					c.locals[obj] = rp
+					accum[obj] = rp
+					resetSeen[rp] = true
+					continue
+				}
+				return nil, cerr(s.Pos(), "%s: unsupported slice assignment", c.fi.Key)
+			}
+			if id, ok := rhs.(*ast.Ident); ok && st.Tok == token.ASSIGN {
+				if p, isAcc := accum[objOf(c.x.info, id)]; isAcc {
+					lp, _, lok := c.fieldPath(st.Lhs[0])
+					if !lok || lp != p {
+						return nil, cerr(s.Pos(), "%s: the elements accumulated for %s are stored in %s", c.fi.Key, p, c.x.l.str(st.Lhs[0]))
+					}
+					// from here on the local no longer stands for the field
+					delete(accum, objOf(c.x.info, id))
+					delete(c.locals, objOf(c.x.info, id))
+					continue
+				}
+			}
 			// F = F[:0]
 			if sl, ok := rhs.(*ast.SliceExpr); ok && st.Tok == token.ASSIGN {
 				lp, _, lok := c.fieldPath(st.Lhs[0])
@@ -1357,6 +1388,9 @@ func (c *extractCtx) decodeStmts(stmts []ast.Stmt) ([]LItem, error) {
 	_ = payloadCountVar
 	if countVar != nil {
 		return nil, cerr(c.fi.Decl.Pos(), "%s: element count read but no elements decoded", c.fi.Key)
+	}
+	for obj, p := range accum {
+		return nil, cerr(obj.Pos(), "%s: the elements of %s are accumulated in %s, which is never stored in the field", c.fi.Key, p, obj.Name())
 	}
 	return out, nil
 }
